@@ -22,7 +22,8 @@ func init() {
 	fw.Register(&fw.Monitor{
 		ID: "C05", Level: "exploration",
 		Rule: vestRuleCommon + "C05 oracle: module balance == sum(initially_locked-sent-withdrawn), pool bounds, and a rejected transaction changes nothing but the signer's sequence/pubkey and the fee. " +
-			"Non-trivial: >=3 pools alive, >=1 withdrawal>0, >=1 rejected transaction; the count of rejected sends that had already run the implicit withdrawal is reported. Distinct by history hash.",
+			"Non-trivial: >=3 pools alive, >=1 withdrawal>0, >=1 rejected transaction; the count of rejected sends that had already run the implicit withdrawal is reported. Distinct by history hash." +
+			" Every 16th case is the genesis probe (consistent / surplus / deficit / no pools / over-drawn pool x skip-genesis-invariants, upper-case owners, sends and withdrawals by them, an owner with 101-160 pools), every 16th the staged v1.2.0 upgrade (solvency and vesting denomination afterwards). After every message the exported cfevesting genesis must list every stored pool unchanged and no pool record may disappear.",
 		Assumptions:   []string{"baseapp's per-transaction cache and rollback are the production ones (real DeliverTx)"},
 		Cases:         func(t string) int { return tierN(t, 256, 3000) },
 		MinNontrivial: func(t string) int { return tierN(t, 80, 1000) },
@@ -53,7 +54,8 @@ func init() {
 	fw.Register(&fw.Monitor{
 		ID: "C06", Level: "exploration",
 		Rule: vestRuleCommon + "C06 oracle: per pool, withdrawn grows by exactly the still-locked remainder iff block time >= lock end (explicit and implicit withdrawals), payout and response equal the sum, a repeated withdrawal pays 0, the VestingPools query in the same block agrees with store and payout, sent grows only through a successful send that creates a new continuous vesting account. " +
-			"Non-trivial: >=1 withdrawal exactly at a lock-end instant or with matured and locked pools side by side. Distinct by history hash.",
+			"Non-trivial: >=1 withdrawal exactly at a lock-end instant or with matured and locked pools side by side. Distinct by history hash." +
+			" Also: a created pool's lock end is creation time + requested duration; a key-less owner with a 32 byte address executes its messages the way group policies do; the genesis probe compares query and withdrawal for an owner with more than 100 pools; the exported genesis lists every stored pool.",
 		Cases:         func(t string) int { return tierN(t, 256, 3000) },
 		MinNontrivial: func(t string) int { return tierN(t, 40, 600) },
 		Run: func(c *fw.Case) {
@@ -72,7 +74,8 @@ func init() {
 	fw.Register(&fw.Monitor{
 		ID: "C08", Level: "exploration",
 		Rule: vestRuleCommon + "C08 oracle (big.Rat): recipient did not exist, is a continuous vesting account with balance == amount, original vesting == floor(amount*(1-free)), start/end per restart flag and lock end, sent += amount, over-remainder sends never succeed, valid sends to fresh addresses never fail; direct creation transfers and vests exactly the given coins. " +
-			"Non-trivial: >=1 successful send with free not in {0,1} and a non-integer free part, or an exact-remainder send. Distinct by history hash.",
+			"Non-trivial: >=1 successful send with free not in {0,1} and a non-integer free part, or an exact-remainder send. Distinct by history hash." +
+			" Also: pool names differing only in letter case, vesting types with sub-second periods (staged), the genesis probe's upper-case owner sends (sent counter, over-send).",
 		Cases:         func(t string) int { return tierN(t, 256, 3000) },
 		MinNontrivial: func(t string) int { return tierN(t, 40, 600) },
 		Run: func(c *fw.Case) {
@@ -91,7 +94,8 @@ func init() {
 	fw.Register(&fw.Monitor{
 		ID: "C17", Level: "exploration",
 		Rule: vestRuleCommon + "C17 oracle: the harness keeps its own lineage closure (pool's genesis flag; split/move children inherit) and compares it with the trace store after blocks and messages; VestingsSummary and GenesisVestingsSummary are recomputed from bank + auth state (SDK account methods for vesting/locked coins, own summation). " +
-			"Non-trivial: lineage depth >=2 reached and delegated vesting >0 at some summary, or depth >=3. Distinct by history hash.",
+			"Non-trivial: lineage depth >=2 reached and delegated vesting >0 at some summary, or depth >=3. Distinct by history hash." +
+			" Also: the exported cfevesting genesis must list every stored trace unchanged; pools created by messages never carry the genesis flag; genesis vesting accounts create pools and pay for direct account creations; every 8th case checks the lineage and pool flags the staged v1.2.0 upgrade records.",
 		Cases:         func(t string) int { return tierN(t, 256, 3000) },
 		MinNontrivial: func(t string) int { return tierN(t, 32, 400) },
 		Run: func(c *fw.Case) {
